@@ -79,6 +79,16 @@ MUTANTS = [
     ("C09", R + "_operations/_sort.py", "@dataclasses.dataclass(frozen=True)\nclass SortTerm:", "@dataclasses.dataclass\nclass SortTerm:", "SortTerm no longer frozen (F2 returns)"),
     ("C09", R + "_columns/_container.py", "return ColumnExpressionSequence(tuple(items), dtype)", "return ColumnExpressionSequence(items, dtype)", "sequence() stores the caller's list (F3 returns)"),
     ("C09", R + "_marker_relation.py", "        return dataclasses.replace(self, target=target, payload=payload)", "        object.__setattr__(self, \"target\", target)\n        return self", "reapply mutates the marker in place"),
+    ("C01", R + "iteration/_engine.py", "                        return ProjectionRowIterable(target_rows, columns)", "                        return target_rows", "execute ignores projections"),
+    ("C01", R + "iteration/_engine.py", "        if relation.max_rows == 0:\n            return RowSequence([])", "        if relation.min_rows == 0:\n            return RowSequence([])", "execute short-circuits on min_rows == 0"),
+    ("C01", R + "iteration/_engine.py", "                        return ChainRowIterable([self.execute(lhs), self.execute(rhs)])", "                        return ChainRowIterable([self.execute(rhs), self.execute(lhs)])", "execute chains the operands in the wrong order"),
+    ("C01", R + "iteration/_engine.py", "                        return target_rows.sliced(start, stop)", "                        return target_rows.sliced(start, None)", "execute ignores the slice stop"),
+    ("C01", R + "iteration/_engine.py", "for ascending, callables in grouped_by_ascending[::-1]:", "for ascending, callables in grouped_by_ascending:", "sort passes applied in the wrong order (bounded stand-in)"),
+    ("C01", R + "iteration/_row_iterable.py", "            if self.stop is not None and n == self.stop:", "            if self.stop is not None and n > self.stop:", "SliceRowIterable yields one row too many (bounded stand-in)"),
+    ("C01", R + "iteration/_engine.py", "return lambda row: all(c(row) for c in operand_callables)", "return lambda row: any(c(row) for c in operand_callables)", "convert_predicate turns AND into OR (bounded stand-in)"),
+    ("C10", R + "iteration/_engine.py", "        if (result := relation.payload) is not None:\n            return result\n", "", "execute ignores an existing payload (re-evaluates materializations)"),
+    ("C10", R + "iteration/_engine.py", "                relation.attach_payload(result)\n", "", "execute does not cache a materialization"),
+    ("C10", R + "iteration/_engine.py", "                result = self.execute(target).materialized()\n                relation.attach_payload(result)", "                result = self.execute(target).materialized()\n                target.attach_payload(result)", "execute attaches the payload to the wrong node"),
 ]
 
 
